@@ -591,10 +591,14 @@ Lemma nodes_of_step_descendant : forall D has_ns self t n,
   filter (match_test D has_ns t) ((if self then [n] else []) ++ descendants D n).
 Proof. intros. unfold step_descendant. apply nodes_of_number_desc. Qed.
 
+(* levels are not nodes *)
+Lemma nodes_of_zero_lvl : forall l, nodes_of (zero_lvl l) = nodes_of l.
+Proof. intros l. unfold nodes_of, zero_lvl. rewrite map_map. reflexivity. Qed.
+
 Lemma nodes_of_step_following : forall D has_ns t n,
   nodes_of (step_following D has_ns t n) = filter (match_test D has_ns t) (following_enum D n).
 Proof.
-  intros. unfold step_following, following_enum.
+  intros. unfold step_following, step_following_raw, following_enum. rewrite nodes_of_zero_lvl.
   rewrite nodes_of_app, filter_app. f_equal.
   - destruct (nattr n); [|reflexivity]. apply nodes_of_step_descendant.
   - rewrite nodes_of_flat_map, filter_flat_map. apply flat_map_ext'. intros a.
